@@ -34,7 +34,7 @@ def run_choice(population, weights=None, cum_weights=None, float_mode="fp"):
     uid = SStr(z3.String("input_id"))
 
     def setup(it):
-        it.call_overrides["deterministic_proba"] = C12.proba_recorder
+        it.call_overrides["pyab_experiment.binning.binning:deterministic_proba"] = C12.proba_recorder
     kwargs = {}
     args = [uid, population]
     if weights is not None:
